@@ -173,7 +173,7 @@ func writeCases(work, imports, typ string, cases []string, per int) []string {
 			hi = len(cases)
 		}
 		var b strings.Builder
-		b.WriteString(imports + "\n")
+		b.WriteString(strings.Replace(imports, "\n", " ", -1) + "\n")
 		b.WriteString("Definition cases : list " + typ + " := [\n")
 		b.WriteString(strings.Join(cases[lo:hi], ";\n"))
 		b.WriteString("\n].\n")
@@ -187,3 +187,5 @@ func writeCases(work, imports, typ string, cases []string, per int) []string {
 	}
 	return names
 }
+
+func os_getenv(k string) string { return os.Getenv(k) }
